@@ -130,7 +130,7 @@ CHECKS = {
         level="exploration",
         rule=("Inputs: accepted journals (sibling accounts of equal sort weight, same-day same-kind directives, @performance targets, accruals) plus extra price "
               "declarations between arbitrary commodity pairs (alternative paths, cycles), shuffled and dealt over an include tree of 1-6 files, x one command with drawn "
-              "flags: balance (all flag families, valued and unvalued), print, check --write, transcode, portfolio weights, portfolio returns. "
+              "flags: balance (all flag families, valued and unvalued), register (all flag families), print, check --write, transcode, portfolio weights, portfolio returns. "
               "Oracle: the same argv is run K times (6 quick, 24 thorough) on the verif build with different KNUT_VERIF_SCHED perturbation seeds and GOMAXPROCS in {1,2,16,4,3,8}; "
               "exit status and stdout bytes must be equal in all runs (Go randomises map iteration per process, so repetition samples map orders; the hook shakes goroutine "
               "arrival order). Import and infer determinism are checked inside C13 and C15. Non-trivial: the input contains >=1 tie/alternative (sibling accounts, same-day "
